@@ -93,6 +93,18 @@ def generate(ctx):
         k = rng.random()
         nrec = rng.randint(1, 3) if k < 0.5 else rng.randint(4, 12)
         yield {"kind": "prefix", "ops": G.gen_valid_session(rng, nrec=nrec, small_numbers=True), "ks": "all"}
+    # files whose lines take more BYTES than characters: CRLF line ends; one non-ASCII residue name on every line
+    for i in range(ctx.n(24, 400)):
+        nrec = rng.randint(1, 3) if rng.random() < 0.4 else rng.randint(4, 30)
+        ops = G.gen_valid_session(rng, nrec=nrec, small_numbers=True)
+        if i % 2 == 0:
+            yield {"kind": "prefix", "ops": ops, "ks": "all", "variant": "crlf"}
+        else:
+            rn = rng.choice(["LÍP", "Å", "SØL", "ÑA"])
+            for o in ops:
+                if o[0] == "w":
+                    o[1][1] = rn
+            yield {"kind": "prefix", "ops": ops, "ks": "all", "variant": "nonascii-resname"}
 
 
 # ----------------------------------------------------------------------------- helpers
@@ -277,6 +289,15 @@ def _eval_prefix(ctx, case):
             ctx.case(case, nontrivial=False)
             return
         ctx.count("prefix-file-generated")
+    variant = case.get("variant")
+    if variant == "crlf":
+        # the same complete file with CRLF line ends (written on another platform): bytes per line != characters
+        # per line; the reader (text mode, universal newlines, byte offsets from tell()) accepts it, and every
+        # truncation before its box line must still be rejected (seed C14-5: line stride from len(first_line))
+        data = data.replace(b"\n", b"\r\n")
+        ctx.count("prefix-variant:crlf")
+    elif variant:
+        ctx.count("prefix-variant:" + variant)
     complete, back = _verdict(ppath, data)
     if complete[0] != "A":
         if "file" in case:
@@ -291,6 +312,13 @@ def _eval_prefix(ctx, case):
     b_indep = body.rfind(b"\n") + 1                              # independent: start of the last line
     if b != b_indep:
         ctx.count("prefix-file-with-trailing-lines")
+    # independent of the reader's bookkeeping: the box line is line number natoms + 2 of the complete file
+    starts = [0] + [i + 1 for i, c in enumerate(data) if c == 10]
+    if 2 + natoms < len(starts):
+        b_lines = starts[2 + natoms]
+        if b_lines != b:
+            ctx.count("prefix-reader-offset-differs-from-line-count")
+        b = b_lines
     ctx.count("prefix-velocities" if back["vel"] else "prefix-no-velocities")
     if case["ks"] == "all":
         ks = list(range(0, len(data) + 1))
@@ -305,6 +333,7 @@ def _eval_prefix(ctx, case):
     G.write_file(ppath, data)
     for k in sorted(ks, reverse=True):
         os.truncate(ppath, k)                                    # the same file, cut back step by step
+        G.pin_mtime(ppath)
         v, _ = _verdict_of(G.read_back(ppath))
         impl[k] = v
         nontriv = natoms >= 1
@@ -330,6 +359,11 @@ def _eval_prefix(ctx, case):
                 elif not all(G.same_float(x, y) for x, y in zip(v[2], complete[2])):
                     ctx.count("prefix-accepted-with-different-box")
 
+    if variant:
+        # oracle only: universal newlines are not modelled, and a cut inside a multi-byte character raises
+        # UnicodeDecodeError where the byte model says OSError (both are rejections; the property asks no more)
+        ctx.count("prefix-variant-not-sent-to-the-model")
+        return
     if not G.modelled_text(data):
         ctx.count("skipped-non-ascii-file")
         return
